@@ -21,7 +21,7 @@ impl Adapter for FallbackAd {
         "fallback"
     }
     fn gen_cfg(&mut self, rng: &mut Rng, _size: Size) -> Value {
-        json!({"hm": rng.below(3), "strat": *rng.pick(&["value", "valuefn", "fromerr", "fromreq", "service", "exception"]), "pred": rng.below(2), "bk": *rng.pick(&["ok", "err"]), "ord": rng.below(2)})
+        json!({"hm": rng.below(4), "strat": *rng.pick(&["value", "valuefn", "fromerr", "fromreq", "service", "exception"]), "pred": rng.below(2), "bk": *rng.pick(&["ok", "err"]), "ord": rng.below(2)})
     }
     fn build(&mut self, cfg: &Value, sim: &mut Sim) {
         let vfn = Arc::new(AtomicU64::new(0));
@@ -69,9 +69,7 @@ impl Adapter for FallbackAd {
     }
     fn mk(&mut self, req: &Req) -> CallFut {
         let f = self.svc.as_mut().unwrap().with(|s| {
-            let w = futures::task::noop_waker();
-            let mut cx = std::task::Context::from_waker(&w);
-            let _ = s.poll_ready(&mut cx);
+            ready_unless_parked(s);
             s.call(req.clone())
         });
         Box::pin(async move {
